@@ -24,6 +24,14 @@ import (
 //	                          Publish runs; nil error returned afterwards                                  => Ack
 //	e != nil, f(e), p fails -> the same single Publish; a non-nil error that still carries e is returned   => Nack
 //
+//	'+panics' classes - the poison publisher PANICS instead of returning (read as "that publish fails": the
+//	message is not in the poison topic):
+//	e != nil, f(e), p panics -> the same single Publish; the failure is still reported: the panic leaves the
+//	                            middleware (a stand-alone caller sees it; the Router recovers it)       => Nack
+//	                            or a non-nil error that still carries e is returned                     => Nack
+//	handler panics / filter panics when asked -> only the invariant below: no success (nil error, Ack)
+//	                            unless the poison publisher accepted the message
+//
 // Whole-run invariant (stated from the logs alone, not from the plan): every acked delivery was
 // handled (handler returned nil) or has a successful Publish of its UUID on the poison topic.
 //
@@ -114,12 +122,18 @@ func expectedSettlement(a *attemptObs, stateful bool) (string, string) {
 		}
 	}
 	switch {
+	case a.hPanic:
+		return "nack", "handler panicked"
+	case a.fPanicked:
+		return "nack", "filter panicked"
 	case a.err == nil:
 		return "ack", "handler succeeded"
 	case !a.accept:
 		return "nack", "handler error rejected by the filter"
 	case a.plan.PubFail:
 		return "nack", "poison publish failed"
+	case a.plan.PubPanicK != "":
+		return "nack", "poison publisher panicked"
 	default:
 		return "ack", "published to the poison topic"
 	}
@@ -163,6 +177,13 @@ func judge(res *vlib.Result, w *world, cfg *config, nm []names) {
 	if cfg.Life != nil {
 		countLifecycle(res, w, cfg)
 	}
+	if cfg.Variant == "panics" {
+		res.Count("panics_cases", 1)
+		res.Count("panics_reaching_standalone_caller", w.expectedPanicsStandalone)
+		if cfg.Recoverer {
+			res.Count("panics_cases_with_recoverer_outermost", 1)
+		}
+	}
 	for _, ms := range w.order {
 		n := nm[0]
 		if cfg.Mode == "router" && ms.plan.Handler >= 0 {
@@ -197,12 +218,22 @@ func judge(res *vlib.Result, w *world, cfg *config, nm []names) {
 			switch {
 			case last.err == nil:
 				res.Count("msgs_handled", 1)
-			case !w.stateful && last.accept && !last.plan.PubFail, w.stateful && len(last.calls) == 1 && last.calls[0].Err == nil:
+			case last.hPanic || last.fPanicked:
+				res.Count("msgs_still_failing", 1)
+			case !w.stateful && last.accept && !last.plan.PubFail && last.plan.PubPanicK == "", w.stateful && len(last.calls) == 1 && last.calls[0].Err == nil:
 				res.Count("msgs_salvaged_to_poison_topic", 1)
 			default:
 				res.Count("msgs_still_failing", 1)
 			}
 			res.Count("redeliveries", len(ms.attempts)-1)
+			if n := len(ms.attempts); n > 1 && last.err != nil && last.salvaged(cfg.PoisonTopic, ms.plan.UUID) {
+				for _, a := range ms.attempts[:n-1] {
+					if a.panicExpected() {
+						res.Count("msgs_poisoned_on_a_redelivery_after_a_panic", 1)
+						break
+					}
+				}
+			}
 		}
 	}
 	if cfg.Reg == regShared {
@@ -236,8 +267,8 @@ func countSharedOrigins(res *vlib.Result, w *world) {
 }
 
 func judgeAttempt(res *vlib.Result, cfg *config, ms *msgState, a *attemptObs, n names) {
-	where := fmt.Sprintf("%s message %q attempt %d (handler error kind %q: %q, filter %s=%v, poison publisher fails=%v)",
-		cfg.Mode, ms.plan.UUID, a.idx, a.plan.ErrKind, a.reason, cfg.Filter, a.accept, a.plan.PubFail)
+	where := fmt.Sprintf("%s message %q attempt %d (handler error kind %q: %q, filter %s=%v, poison publisher %s)",
+		cfg.Mode, ms.plan.UUID, a.idx, a.plan.ErrKind, a.reason, cfg.Filter, a.accept, a.plan.pubText())
 	stateful := cfg.Variant == "stateful"
 	if stateful {
 		where = fmt.Sprintf("%s message %q attempt %d (handler error kind %q: %q, filter with memory %s(%s) answered %q for this failure, poison publisher fails=%v)",
@@ -266,6 +297,29 @@ func judgeAttempt(res *vlib.Result, cfg *config, ms *msgState, a *attemptObs, n 
 		res.Events++
 	}
 	res.Events += len(a.calls)
+	if a.gotPanic && !a.panicExpected() {
+		res.Fail("panic", "%s: a panic left the poison middleware although neither the publisher nor the handler nor the filter panicked: %s", where, a.gotPanicText)
+		return
+	}
+	if a.hPanic || a.fPanicked {
+		// the handler did not return / the filter gave no verdict: no row of the model applies, only the invariant
+		what := "handler"
+		if a.hPanic {
+			res.Count("handler_panics", 1)
+			res.Count("handler_panic_"+a.plan.HPanicK, 1)
+		} else {
+			what = "filter"
+			res.Count("filter_panics", 1)
+			res.Count("filter_panic_"+a.plan.FPanicK, 1)
+		}
+		if a.gotPanic {
+			res.Count(what+"_panic_left_the_middleware", 1)
+		}
+		if a.gotSet && !a.gotPanic && a.gotErr == nil && !a.salvaged(cfg.PoisonTopic, ms.plan.UUID) {
+			res.Fail("success-after-panic", "%s: the %s panicked, the poison topic did not accept the message, yet the middleware returned nil (the message is acked and lost)", where, what)
+		}
+		return
+	}
 	expectPublish := a.err != nil && a.accept
 	if stateful && a.err != nil {
 		yes, no := countAnswers(a.answers)
@@ -409,11 +463,19 @@ func judgeAttempt(res *vlib.Result, cfg *config, ms *msgState, a *attemptObs, n 
 			res.Count("poisoned_with_visible_router_spelled_string_keys", 1)
 		}
 	}
-	pubFailed := c.Err != nil
-	if pubFailed {
+	pubFailed := c.Err != nil || c.Panic != nil
+	switch {
+	case c.Panic != nil:
+		res.Count("poison_publish_panicked", 1)
+		res.Count("poison_publish_panic_"+a.plan.PubPanicK, 1)
+	case pubFailed:
 		res.Count("poison_publish_failed", 1)
-	} else {
+	default:
 		res.Count("poison_published_ok", 1)
+	}
+	if a.plan.PubPanicK != "" && c.Panic == nil {
+		res.Inconclusive("%s: the drawn panic of the poison publisher was not observable (Publish returned)", where)
+		return
 	}
 	if !a.gotSet {
 		return
@@ -422,7 +484,17 @@ func judgeAttempt(res *vlib.Result, cfg *config, ms *msgState, a *attemptObs, n 
 		res.Fail("returned-before-publish-finished", "%s: middleware returned at %d, Publish ended at %d", where, a.spyRet, c.End)
 		return
 	}
+	if a.gotPanic {
+		// the publisher's panic left the middleware: the failure is reported (the Router recovers it and Nacks)
+		res.Count("publisher_panic_left_the_middleware", 1)
+		return
+	}
+	if c.Panic != nil {
+		res.Count("publisher_panic_returned_by_the_middleware", 1)
+	}
 	switch {
+	case c.Panic != nil && a.gotErr == nil:
+		res.Fail("success-after-publisher-panic", "%s: the poison publisher panicked (%s), so the message is not in the poison topic, but the middleware returned nil (the message would be acked and lost)", where, panicText(c.Panic))
 	case !pubFailed && a.gotErr != nil:
 		res.Fail("error-after-salvage", "%s: publish succeeded but the middleware returned %v", where, errText(a.gotErr))
 	case pubFailed && a.gotErr == nil:
@@ -446,18 +518,18 @@ func judgeSettlement(res *vlib.Result, cfg *config, ms *msgState) {
 		res.Events++
 		res.Count("settled_"+got, 1)
 		want, why := expectedSettlement(a, cfg.Variant == "stateful")
-		where := fmt.Sprintf("router message %q delivery %d (handler error kind %q, filter %s=%v, poison publisher fails=%v)",
-			ms.plan.UUID, i, a.plan.ErrKind, cfg.Filter, a.accept, a.plan.PubFail)
+		where := fmt.Sprintf("router message %q delivery %d (handler error kind %q, filter %s=%v, poison publisher %s)",
+			ms.plan.UUID, i, a.plan.ErrKind, cfg.Filter, a.accept, a.plan.pubText())
+		if a.hPanic {
+			where += " [handler panicked]"
+		}
+		if a.fPanicked {
+			where += " [filter panicked]"
+		}
 
 		// the invariant, from the logs alone
-		if got == "ack" && a.err != nil {
-			salvaged := false
-			for _, pc := range a.calls {
-				if pc.Err == nil && pc.Topic == cfg.PoisonTopic && len(pc.Snaps) == 1 && pc.Snaps[0].UUID == c.UUID {
-					salvaged = true
-				}
-			}
-			if !salvaged {
+		if got == "ack" && (a.err != nil || a.hPanic) {
+			if !a.salvaged(cfg.PoisonTopic, c.UUID) {
 				res.Fail("acked-but-neither-handled-nor-poisoned", "%s: acked, but the handler failed and the poison topic did not accept the message", where)
 				return
 			}
@@ -465,6 +537,8 @@ func judgeSettlement(res *vlib.Result, cfg *config, ms *msgState) {
 		switch {
 		case got == "":
 			res.Fail("unsettled", "%s: neither acked nor nacked", where)
+		case a.hPanic || a.fPanicked:
+			// no row of the model applies (the handler did not return / the filter gave no verdict): the invariant above is all
 		case got != want && want == "nack":
 			res.Fail("acked-instead-of-nack", "%s: acked, expected Nack (%s)", where, why)
 		case got != want:
@@ -507,6 +581,9 @@ func describe(res *vlib.Result, w *world, cfg *config) {
 		Accept    bool   `json:"filter_accepts"`
 		Answers   string `json:"filter_answers,omitempty"`
 		PubFail   bool   `json:"poison_pub_fails"`
+		PubPanic  string `json:"poison_pub_panics,omitempty"`
+		HPanic    string `json:"handler_panics,omitempty"`
+		FPanic    string `json:"filter_panicked,omitempty"`
 		Published int    `json:"publish_calls"`
 		Returned  string `json:"middleware_returned"`
 		Settled   string `json:"settled,omitempty"`
@@ -534,6 +611,9 @@ func describe(res *vlib.Result, w *world, cfg *config) {
 		if cfg.Life != nil {
 			parts = append(parts, lifeSig(cfg)...)
 		}
+		if cfg.Variant == "panics" {
+			parts = append(parts, cfg.TaggedErrs, cfg.Concurrent, cfg.Recoverer)
+		}
 	}
 	var sample []msgDesc
 	for i, ms := range w.order {
@@ -549,6 +629,20 @@ func describe(res *vlib.Result, w *world, cfg *config) {
 			pubOutcome := "-"
 			if len(a.calls) > 0 {
 				pubOutcome = fmt.Sprint(a.calls[0].Err == nil)
+				if a.calls[0].Panic != nil {
+					pubOutcome = "panic"
+				}
+			}
+			returned := errText(a.gotErr)
+			if a.gotPanic {
+				returned = "panic: " + strings.ToValidUTF8(a.gotPanicText, "?")
+			}
+			fPanic := ""
+			if a.fPanicked {
+				fPanic = a.plan.FPanicK
+			}
+			if cfg.Variant == "panics" {
+				parts = append(parts, a.plan.PubPanicK, a.plan.HPanicK, fPanic, a.gotPanic, ms.plan.Outage)
 			}
 			parts = append(parts, a.plan.ErrKind, a.plan.OutKind, a.accept, pubOutcome, a.plan.MutKey != "", ms.plan.PreKeys, settled)
 			if cfg.Variant == "stateful" {
@@ -562,7 +656,7 @@ func describe(res *vlib.Result, w *world, cfg *config) {
 				reason = reason[:60] + "..."
 			}
 			md.Attempts = append(md.Attempts, attemptDesc{ErrKind: a.plan.ErrKind, Reason: strings.ToValidUTF8(reason, "?"), Outputs: a.plan.OutKind, Accept: a.accept, Answers: answersText(a.answers),
-				PubFail: a.plan.PubFail, Published: len(a.calls), Returned: errText(a.gotErr), Settled: settled})
+				PubFail: a.plan.PubFail, PubPanic: a.plan.PubPanicK, HPanic: a.plan.HPanicK, FPanic: fPanic, Published: len(a.calls), Returned: returned, Settled: settled})
 		}
 		parts = append(parts, "|")
 		if i < 3 {
